@@ -57,7 +57,7 @@ func c19Pack(c *Ctx) {
 	p := c.P
 	// the packer is whatever method of EcdsaSignature xmldsig.finishSignature turns the value into bytes with
 	var pack *ssa.Function
-	if fin := p.Func("lib/xmldsig.finishSignature"); fin != nil {
+	if _, fin, _ := xmlFinishHost(p); fin != nil {
 		for _, b := range fin.Blocks {
 			for _, in := range b.Instrs {
 				ci, ok := in.(ssa.CallInstruction)
@@ -217,7 +217,7 @@ func c19Pack(c *Ctx) {
 
 func c19Pairing(c *Ctx) {
 	p := c.P
-	fin := p.Func("lib/xmldsig.finishSignature")
+	outer, fin, via := xmlFinishHost(p)
 	ver := p.Func("lib/xmldsig.Verify")
 	if fin == nil || ver == nil {
 		c.Undecided("R19b", "finishSignature/Verify", "-", "function not found")
@@ -251,11 +251,19 @@ func c19Pairing(c *Ctx) {
 	}
 	// the conversion is not skippable for ECDSA: the encoded value on the ECDSA edge is the packed one
 	if packs := p.callsIn(fin, packName); len(packs) == 1 {
-		enc := p.callsIn(fin, "(*encoding/base64.Encoding).EncodeToString")
+		enc := p.callsIn(outer, "(*encoding/base64.Encoding).EncodeToString")
 		ok := false
 		for _, e := range enc {
 			if dependsOn(e.Common().Args[1], func(x ssa.Value) bool { return x == packs[0].Value() }) {
 				ok = true
+			}
+			// through the named step: what is encoded is that step's result, and the step returns the packed value
+			if via != nil && dependsOn(e.Common().Args[1], func(x ssa.Value) bool { return x == via.Value() }) {
+				for _, r := range returnsOf(fin) {
+					if len(r.Results) > 0 && dependsOn(retVal(r, 0), func(x ssa.Value) bool { return x == packs[0].Value() }) {
+						ok = true
+					}
+				}
 			}
 		}
 		c.Check(ok, "R19b", "finishSignature encodes the packed value", p.Pos(fin.Pos()), "", "the SignatureValue written is not the packed r||s value")
@@ -429,6 +437,18 @@ func c19Tables(c *Ctx) {
 		return
 	}
 	required := stringConstsIn(ver, true)
+	// and the constants compared in a predicate of the package that Verify asks
+	for _, b := range ver.Blocks {
+		for _, in := range b.Instrs {
+			if ci, ok := in.(ssa.CallInstruction); ok {
+				if g := ci.Common().StaticCallee(); g != nil && pkgOf(g) == pkgOf(ver) && len(g.Blocks) > 0 && g.Signature.Results().Len() == 1 && isBool(g.Signature.Results().At(0).Type()) {
+					for k := range stringConstsIn(g, true) {
+						required[k] = true
+					}
+				}
+			}
+		}
+	}
 	n := 0
 	for _, r := range returnsOf(cn) {
 		for _, lf := range phiLeaves(retVal(r, 0), nil, map[*ssa.Phi]bool{}) {
@@ -585,6 +605,21 @@ func c19AttrOrder(c *Ctx) {
 	if less == nil {
 		c.Undecided("R19e", "attribute ordering function", p.Pos(w.Pos()), "the closure passed to sort.Slice was not found")
 		return
+	}
+	// a closure that only hands its two elements to a named comparison of the package: judge that
+	for i := 0; i < 2; i++ {
+		var inner *ssa.Function
+		for _, r := range returnsOf(less) {
+			if call, _ := resultOf(retVal(r, 0)); call != nil {
+				if g := call.Common().StaticCallee(); g != nil && pkgOf(g) == pkgOf(w) && len(g.Blocks) > 0 && len(returnsOf(less)) == 1 {
+					inner = g
+				}
+			}
+		}
+		if inner == nil {
+			break
+		}
+		less = inner
 	}
 	c.Analysed(p.FName(less))
 	// resolves URIs: reaches a lookup of a declaration or etree's NamespaceURI
@@ -950,4 +985,29 @@ func etreeReadSettingStores(p *Prog) (out []gFinding) {
 		}
 	}
 	return out
+}
+
+// xmlFinishHost: xmldsig.finishSignature, and the function in which the signing itself happens: finishSignature,
+// or a step of it that was given a name (a helper of the package it calls, which signs with a parameter).
+func xmlFinishHost(p *Prog) (fin, host *ssa.Function, via ssa.CallInstruction) {
+	fin = p.Func("lib/xmldsig.finishSignature")
+	if fin == nil {
+		return nil, nil, nil
+	}
+	if len(p.callsIn(fin, "(crypto.Signer).Sign")) > 0 {
+		return fin, fin, nil
+	}
+	for _, b := range fin.Blocks {
+		for _, in := range b.Instrs {
+			ci, ok := in.(ssa.CallInstruction)
+			if !ok {
+				continue
+			}
+			g := ci.Common().StaticCallee()
+			if g != nil && pkgOf(g) == pkgOf(fin) && len(g.Blocks) > 0 && len(p.callsIn(g, "(crypto.Signer).Sign")) > 0 {
+				return fin, g, ci
+			}
+		}
+	}
+	return fin, fin, nil
 }
